@@ -112,23 +112,27 @@ func ruleFullQueueError(c *core.Ctx, a *epAnchors) {
 	const rule = "C12.dispatch"
 	fn := a.dispatch
 	typeF := c.Field("bus/net", "Header", "Type")
-	newHeader := c.Func("bus/net", "", "NewHeader")
+	unit := unitOf(c, fn)
 	var sel *ssa.Select
-	for _, b := range fn.Blocks {
-		for _, in := range b.Instrs {
-			if s, ok := in.(*ssa.Select); ok {
-				sel = s
+	for _, f := range unit {
+		for _, b := range f.Blocks {
+			for _, in := range b.Instrs {
+				if s, ok := in.(*ssa.Select); ok {
+					sel = s
+				}
 			}
 		}
 	}
-	if sel == nil || typeF == nil || newHeader == nil {
+	if sel == nil || typeF == nil {
 		c.Fail(rule, "bus/net.endPoint.dispatch/full-queue", fn.Pos(), "no select in dispatch")
 		return
 	}
 	var sends []ssa.CallInstruction
-	for _, call := range core.Calls(fn) {
-		if core.IsCallTo(call, a.send) {
-			sends = append(sends, call)
+	for _, f := range unit {
+		for _, call := range core.Calls(f) {
+			if core.IsCallTo(call, a.send) {
+				sends = append(sends, call)
+			}
 		}
 	}
 	if len(sends) == 0 {
@@ -141,15 +145,16 @@ func ruleFullQueueError(c *core.Ctx, a *epAnchors) {
 	}
 	is0 := func(v ssa.Value) bool { k, ok := core.ConstInt(v); return ok && k == 0 }
 	isType := func(v ssa.Value) bool { return isFieldOf(v, typeF) }
-	isCall := func(v ssa.Value) bool { k, ok := core.ConstInt(v); return ok && k == 1 } // net.Call == 1
+	kCall := constOf(c, "bus/net", "Call")
+	isCall := func(v ssa.Value) bool { k, ok := core.ConstInt(v); return ok && k == kCall }
 	for i, s := range sends {
 		key := fmt.Sprintf("bus/net.endPoint.dispatch/full-queue#%d", i+1)
 		in := s.(ssa.Instruction)
-		if !core.Guarded(fn, in, core.Ne(isIdx, is0)) {
+		if !guardedUp(c, s.Parent(), in, core.Ne(isIdx, is0)) {
 			c.Fail(rule, key, s.Pos(), "an error is sent although the message was queued")
 			continue
 		}
-		if !core.Guarded(fn, in, core.Eq(isType, isCall)) {
+		if !guardedUp(c, s.Parent(), in, core.Eq(isType, isCall)) {
 			c.Fail(rule, key, s.Pos(), "the full-queue error is sent for messages that are not calls (an Error answered with an Error can loop between two peers)")
 			continue
 		}
